@@ -2005,6 +2005,238 @@ def search_lower_tail(ctx, rng, counts, deep):
             examine_lower_tail(ctx, {'cls': 'Univariate', 'opts': {'candidates': cands}}, data, counts)
 
 
+# ------------------------------------------------------------------ dtype / container of the probabilities
+def examine_dtypes(ctx, spec, data, seed, counts):
+    """percent_point of probabilities given as float32 / float16 arrays, numpy scalars and 0-d arrays must be the
+    float64 answer for the SAME numbers (within the solver tolerance) and satisfy cdf(ppf(q)) = q; also for data
+    far from 0 relative to its spread, where a float32 result array would round the roots."""
+    m = fit(spec, data)
+    if isinstance(m, tuple) or is_const(m):
+        return
+    inst = inst_of(m)
+    icls = type(inst).__name__
+    kde = icls == 'GaussianKDE'
+    ctx.count(f'dtypes.{spec["cls"]}' + (f'->{icls}' if spec['cls'] == 'Univariate' else ''))
+    rs = np.random.RandomState(seed)
+    d = np.asarray(data, dtype=float)
+    span = max(float(d.max() - d.min()), float(d.std()))
+    q64 = np.concatenate([[0.25, 0.5, 0.75, 0.1, 0.9], rs.uniform(0.02, 0.98, 4)])
+    variants = [('float32 array', q64.astype(np.float32)), ('float16 array', q64.astype(np.float16)),
+                ('np.float32 scalar', np.float32(q64[5])), ('0-d float64 array', np.array(q64[6])),
+                ('0-d float32 array', np.array(q64[7], dtype=np.float32)),
+                ('float32 array with end points', np.array([0.0, 0.3, 1.0, 0.6], dtype=np.float32))]
+    methods = [None] + (['bisect'] if kde and spec['cls'] != 'Univariate' else [])
+    with np.errstate(all='ignore'):
+        maxpdf = float(np.max(m.probability_density(d)))
+    for method in methods:
+        kw = {'method': method} if method else {}
+        xtol = 1e-6 * span + (2e-8 if method == 'bisect' else 0.0)
+        for what, U in variants:
+            U64 = np.asarray(U, dtype=np.float64)           # the same numbers, exactly
+            ref = call(m.percent_point, np.atleast_1d(U64), **kw)
+            got = call(m.percent_point, U, **kw)
+            counts['checks'] += U64.size
+            if ref[0] == 'err' or got[0] == 'err':
+                if ref[0] != got[0]:
+                    ctx.count(f'dtypes.{what}.not-accepted')      # container not accepted by this class: not a law
+                continue
+            a, b = np.atleast_1d(got[1]).astype(float), ref[1]
+            problem = None
+            if a.shape != b.shape:
+                problem = {'shape': list(a.shape), 'float64_shape': list(b.shape)}
+            else:
+                fin = np.isfinite(a) & np.isfinite(b)
+                bad = ~(((a == b) | (np.isnan(a) & np.isnan(b))) | (fin & (np.abs(a - b) <= xtol)))
+                if np.any(bad):
+                    # scipy may carry the computation out at the precision of the input dtype (float16 / float32
+                    # loops of ndtri …): the two answers may then differ by a few input-epsilons in PROBABILITY
+                    qeps = 8 * float(np.finfo(np.asarray(U).dtype).eps)
+                    ca, cb = call(m.cumulative_distribution, a[bad & fin]), call(m.cumulative_distribution, b[bad & fin])
+                    if ca[0] == 'ok' and cb[0] == 'ok' and np.all(np.abs(ca[1] - cb[1]) <= qeps) and not np.any(bad & ~fin):
+                        bad[:] = False
+                if np.any(bad):
+                    i = int(np.argmax(bad))
+                    problem = {'q': float(np.atleast_1d(U64)[i]), 'ppf': float(a[i]), 'ppf_of_float64_probabilities': float(b[i]),
+                               'tolerance_x': xtol}
+                else:
+                    back = call(m.cumulative_distribution, a[fin])
+                    qq = np.atleast_1d(U64)[fin]
+                    inner = (qq > 2 * EPS) & (qq < 1 - 2 * EPS)
+                    rback = call(m.cumulative_distribution, b[fin])
+                    if back[0] == 'ok' and rback[0] == 'ok' and np.any(inner):
+                        err = np.abs(back[1][inner] - qq[inner])
+                        tol = 1e-6 + (maxpdf * 1e-8 if method == 'bisect' else 0.0) + \
+                            8 * float(np.finfo(np.asarray(U).dtype).eps)
+                        # (only where the float64 call itself inverts the CDF: a degenerate fit is not a dtype matter)
+                        err = np.where(np.abs(rback[1][inner] - qq[inner]) <= tol, err, 0.0)
+                        if np.any(err > tol):
+                            i = int(np.argmax(err))
+                            problem = {'q': float(qq[inner][i]), 'ppf': float(a[fin][inner][i]),
+                                       'cdf(ppf)': float(back[1][inner][i]), 'tolerance': tol}
+            if problem is None:
+                continue
+            counts['failures'] += 1
+            key = f'{icls}.percent_point:depends-on-probability-dtype'
+            if sum(1 for f in ctx.failing if f['class'] == key) < 3:
+                ctx.fail_input(f'{spec["cls"]}.percent_point', {'spec': spec, 'data': d.tolist(), 'seed': seed, 'law': 'dtypes',
+                                                                'probabilities': what, 'values': np.atleast_1d(U64).tolist(),
+                                                                'method': method or 'default'},
+                               dict(problem, probabilities=what, result_dtype=str(np.asarray(got[1]).dtype)),
+                               'percent_point of float32 / float16 / scalar probabilities = percent_point of the same numbers '
+                               'as a float64 array (solver tolerance), and cdf(ppf(q)) = q', key)
+            return
+
+
+def search_dtypes(ctx, rng, counts, deep):
+    for rep in range(3 if deep else 1):
+        for cls in ALL + ('Univariate',):
+            big = cls in ('GaussianKDE', 'Univariate') or rng.random() < 0.5
+            rs = np.random.RandomState(rng.randrange(2 ** 31))
+            if big:      # far from 0 relative to the spread
+                data = rng.choice([-1, 1]) * 10 ** rng.uniform(3, 5) + rs.normal(0, 1, rng.choice([12, 40, 90]))
+            else:
+                data = gen_data(rng, n=rng.choice([12, 40]))[1]
+            spec = {'cls': cls, 'opts': {'candidates': ['GaussianKDE']} if cls == 'Univariate' else {}}
+            examine_dtypes(ctx, spec, data, rng.randrange(2 ** 31), counts)
+        if True:
+            data = gen_data(rng, n=30)[1]
+            examine_dtypes(ctx, {'cls': 'GaussianKDE', 'opts': {'bw_method': rng.choice(['silverman', 0.5])}}, data,
+                           rng.randrange(2 ** 31), counts)
+
+
+# ------------------------------------------------------------------ object STATES: restored / cloned models
+def state_variants(m, spec, data, seed):
+    """-> [(name, object | ('err', text))]: the same fitted law reached along other paths"""
+    import json
+    import os
+    u = U()
+    out = []
+
+    def attempt(name, f):
+        try:
+            with np.errstate(all='ignore'):
+                out.append((name, f()))
+        except Exception as e:  # noqa
+            out.append((name, ('err', f'{type(e).__name__}: {str(e)[:80]}')))
+    inst = inst_of(m)
+    attempt('cls.from_dict(to_dict)', lambda: type(inst).from_dict(m.to_dict()))
+    attempt('Univariate.from_dict(to_dict)', lambda: u.Univariate.from_dict(m.to_dict()))
+    attempt('from_dict(json.loads(json.dumps(to_dict)))',
+            lambda: u.Univariate.from_dict(json.loads(json.dumps(vc.jsonable(m.to_dict())))))
+
+    def save_load():
+        os.makedirs('/scratch/c03/pickles', exist_ok=True)
+        path = f'/scratch/c03/pickles/c03-{os.getpid()}.pkl'
+        m.save(path)
+        try:
+            return type(m).load(path)
+        finally:
+            os.remove(path)
+    attempt('save/load', save_load)
+
+    def clone_fit():
+        from copulas.utils import get_instance
+        c = get_instance(m)
+        err = seeded_fit(c, data, seed)
+        if err:
+            raise RuntimeError(err)
+        return c
+    attempt('get_instance(model) + fit', clone_fit)
+    return out
+
+
+def examine_states(ctx, spec, data, seed, rng, counts):
+    m = build(spec)
+    if seeded_fit(m, data, seed) is not None:
+        ctx.count(f'states.{spec["cls"]}.fit-raises')
+        return
+    inst = inst_of(m)
+    icls = type(inst).__name__
+    ctx.count(f'states.{spec["cls"]}' + (f'->{icls}' if spec['cls'] == 'Univariate' else ''))
+    d = np.asarray(data, dtype=float)
+    const = is_const(m)
+    x = np.array(const_points(rng, float(d[0]))) if len(np.unique(d)) == 1 else probes(rng, d)
+    qs = np.array([0.0, 1e-6, 0.01, 0.2, 0.5, 0.8, 0.99, 1 - 1e-6, 1.0])
+    orig = {q: call(getattr(m, LONG[q]), qs if q == 'ppf' else x) for q in ('cdf', 'pdf', 'ppf', 'logpdf')}
+    # do the laws hold for the fitted model itself?  (then they must hold for every other state of it)
+    base_fail = []
+    if not const and is_kde(m) and float(np.std(d)) < 1e-6:
+        base_fail = ['skipped']      # the KDE root finders' absolute tolerances at tiny scales: known, and slow
+    elif not const:
+        laws(model_fns(m), d, vc.rng_for(seed, 'states-laws'), lambda *a: base_fail.append(a))
+    for name, obj in state_variants(m, spec, data, seed):
+        counts['checks'] += 4
+        problem = None
+        if isinstance(obj, tuple):
+            problem = {'state': name, 'raises': obj[1]}
+        else:
+            for q in ('cdf', 'pdf', 'ppf', 'logpdf'):
+                arg = qs if q == 'ppf' else x
+                a, b = orig[q], call(getattr(obj, LONG[q]), arg)
+                same_ = a[0] == b[0] and (bit_equal(a[1], b[1]) if a[0] == 'ok' else a[1].split(':')[0] == b[1].split(':')[0])
+                if not same_:
+                    if a[0] == 'ok' and b[0] == 'ok' and a[1].shape == b[1].shape:
+                        i = int(np.argmax(~((a[1] == b[1]) | (np.isnan(a[1]) & np.isnan(b[1])))))
+                        problem = {'state': name, 'query': LONG[q], 'at': float(arg[i]), 'fitted_model': float(a[1][i]),
+                                   'this_state': float(b[1][i])}
+                    else:
+                        problem = {'state': name, 'query': LONG[q], 'fitted_model': str(a[1])[:100], 'this_state': str(b[1])[:100]}
+                    break
+            if problem is None and not const and not base_fail and name == 'cls.from_dict(to_dict)':
+                fails = []
+                laws(model_fns(obj), d, vc.rng_for(seed, 'states-laws'), lambda *a: fails.append(a))
+                if fails:
+                    problem = {'state': name, 'law': fails[0][0], 'input': fails[0][1], 'observed': fails[0][2]}
+            if problem is None and const and not is_const(obj):
+                problem = {'state': name, 'constant_model_lost': True}
+        if problem is None:
+            continue
+        counts['failures'] += 1
+        path = 'from_dict' if 'from_dict' in name else ('save-load' if name == 'save/load' else 'clone')
+        key = f'{icls}.{path}:laws-differ-from-fitted-model'
+        if sum(1 for f in ctx.failing if f['class'] == key) < 3:
+            ctx.fail_input(f'{icls}.{path}', {'spec': spec, 'data': d.tolist(), 'seed': seed, 'law': 'states', 'state': name,
+                                              'to_dict': vc.jsonable(m.to_dict())}, problem,
+                           'a model restored / cloned along this path answers cdf, pdf, ppf, log-pdf exactly like the fitted '
+                           'model and satisfies the same laws', key)
+
+
+def states_data(rng):
+    kind = rng.choice(['generic', 'tiny-1e-9', 'tiny-1e-12', 'huge-offset', 'few-distinct', 'constant'])
+    rs = np.random.RandomState(rng.randrange(2 ** 31))
+    n = rng.choice([8, 30, 80])
+    if kind == 'generic':
+        return kind, gen_data(rng, n=n)[1]
+    if kind.startswith('tiny'):
+        unit = 1e-9 if kind == 'tiny-1e-9' else 1e-12
+        base = rng.choice([0.0, 3.0 * unit])
+        return kind, base + unit * rs.gamma(2.0, 1.0, n) * rng.choice([1.0, 0.3])
+    if kind == 'huge-offset':
+        return kind, rng.choice([-1, 1]) * 10 ** rng.uniform(4, 7) + rs.normal(0, rng.choice([1.0, 10.0]), n)
+    if kind == 'few-distinct':
+        return kind, rs.choice(np.array([1.0, 2.0, 2.5, 4.0, 7.0]) * 10 ** rng.uniform(-1, 2), n)
+    return kind, np.full(n, float(rng.uniform(-50, 50)))
+
+
+def search_states(ctx, rng, counts, deep):
+    for rep in range(3 if deep else 1):
+        for cls in ALL + ('Univariate',):
+            for j in range(2):
+                kind, data = states_data(rng) if j else ('tiny', states_data_tiny(rng))
+                if cls == 'BetaUnivariate' and kind == 'constant':
+                    data = np.full(len(data), float(rng.uniform(-50, 50)))
+                spec = {'cls': cls, 'opts': {}}
+                if cls == 'Univariate':
+                    spec['opts'] = {'candidates': rng.sample(list(SCIPY), 2)}
+                examine_states(ctx, spec, data, rng.randrange(2 ** 31), rng, counts)
+
+
+def states_data_tiny(rng):
+    rs = np.random.RandomState(rng.randrange(2 ** 31))
+    unit = rng.choice([1e-9, 1e-12])
+    return rng.choice([0.0, 2.0, -5.0]) * unit + unit * rs.normal(0, 1, rng.choice([8, 30, 80]))
+
+
 def search_tails(ctx, rng, counts, deep):
     for rep in range(4 if deep else 1):
         for cls in ALL:
@@ -2029,6 +2261,8 @@ def search(ctx, deep):
     search_composition(ctx, ctx.rng('search-composition'), counts, deep)
     search_exact_hits(ctx, ctx.rng('search-exact-hits'), counts, deep)
     search_lower_tail(ctx, ctx.rng('search-lower-tail'), counts, deep)
+    search_dtypes(ctx, ctx.rng('search-dtypes'), counts, deep)
+    search_states(ctx, ctx.rng('search-states'), counts, deep)
     search_shared(ctx, ctx.rng('search-shared'), counts, deep)
     search_history(ctx, ctx.rng('search-history'), counts, deep)
     search_batch(ctx, ctx.rng('search-batch'), counts, deep)
@@ -2087,6 +2321,12 @@ def replay(ctx, payload):
     if inp.get('law') == 'shared':
         examine_shared(ctx, inp['candidates'], [np.array(d_, dtype=float) for d_ in inp['datasets']], inp['seeds'],
                        counts, inp.get('seeded_protos', False))
+        return any(f['class'] == payload.get('class') for f in ctx.failing[before:])
+    if inp.get('law') == 'dtypes':
+        examine_dtypes(ctx, inp['spec'], np.array(inp['data'], dtype=float), inp['seed'], counts)
+        return any(f['class'] == payload.get('class') for f in ctx.failing[before:])
+    if inp.get('law') == 'states':
+        examine_states(ctx, inp['spec'], np.array(inp['data'], dtype=float), inp['seed'], vc.rng_for(0, 'replay'), counts)
         return any(f['class'] == payload.get('class') for f in ctx.failing[before:])
     if inp.get('law') == 'lower-tail':
         examine_lower_tail(ctx, inp['spec'], np.array(inp['data'], dtype=float), counts)
